@@ -432,8 +432,6 @@ func c01SiteRun(c c01Site) error {
 		cont[i] = d.Choice
 	}
 	byIdx := map[uint32]string{}
-	byOut := map[string]uint32{}
-	collide := ""
 	var vs []uint64
 	for i := uint64(0); i < window; i++ {
 		vs = append(vs, i, 1<<32-1-i, uint64(uint32(ev.Mix64(c.Key, i))))
@@ -466,8 +464,11 @@ func c01SiteRun(c c01Site) error {
 				return g()
 			}()
 		})
-		if s.Panic != nil || pw == nil || len(s.Draws) == 0 {
-			return fmt.Errorf("generation with first raw word %#x failed (panic %v)", v, s.Panic)
+		if s.Panic != nil {
+			return fmt.Errorf("generation with first raw word %#x panicked: %v", v, s.Panic)
+		}
+		if pw == nil || len(s.Draws) == 0 || s.CapHit || s.NoRep != nil {
+			return &ev.Skip{Why: "generation did not complete under the forced continuation"}
 		}
 		gotAccepted := s.Draws[0].Bytes == 4
 		if gotAccepted != accepted {
@@ -481,21 +482,8 @@ func c01SiteRun(c c01Site) error {
 			return fmt.Errorf("raw words with the same result %d of the bounded draw (1-of-%d) give different passwords: %q and %q", want, n, o, out)
 		}
 		byIdx[want] = out
-		// the converse (different results, different passwords) is judged after
-		// the loop, and only if the first draw has any effect at all
-		if j, seen := byOut[out]; seen && j != want && collide == "" {
-			collide = fmt.Sprintf("raw words with different results %d and %d of the bounded draw give the same password %q although other results give other passwords: the call site does not use the draw's result as it is", j, want, out)
-		}
-		byOut[out] = want
-	}
-	// needs every alternative of the first draw to be visible in the output:
-	// word or character draws, not capitalisation of words that do not change
-	// under title-casing; and not a draw the generator makes and ignores
-	if collide != "" && len(byOut) > 1 && (c.Words == nil || c.Scheme == "none") {
-		return fmt.Errorf("%s", collide)
-	}
-	if len(byOut) == 1 && len(byIdx) > 1 {
-		ev.Class("first_draw_without_effect_converse_not_judged")
+		// (no converse: a call site may leave part of a draw's result unused -
+		// an index and a coin in one draw, say - without any bias)
 	}
 	ev.Leaves(int64(len(vs)))
 	ev.Class("call_site_consistency")
